@@ -12,6 +12,9 @@ pub struct C18;
 struct Cl {
     /// token addresses: true = a live server listens there (always server 0), false = silent
     live_at: Vec<bool>,
+    /// the first listed address belongs to a second server that answers the request with a challenge and is silent afterwards
+    half_first: bool,
+    half_answered: bool,
     timeout: i32,
     expire_ts: u64,
     /// the server reached its client limit at some point of this client's attempt
@@ -86,6 +89,16 @@ impl W {
     /// A datagram from client c reaches the server.
     fn to_server(&mut self, ctx: &mut Ctx, c: usize, did: usize) -> Outcome {
         let d = self.nw.pool[did].clone();
+        if d.to == server_addr(1) {
+            // the second server answers a request with a challenge, then nothing more is heard of it
+            if d.kind == 0 && !self.cl[c].half_answered {
+                if let SrvOut::Send { did: r, .. } = self.nw.server_recv(1, d.src, &d.bytes) {
+                    self.cl[c].half_answered = true;
+                    self.enqueue_down(ctx, c, r);
+                }
+            }
+            return Ok(());
+        }
         if d.to != server_addr(0) {
             return Ok(()); // silent address: nobody listens
         }
@@ -355,7 +368,7 @@ impl Property for C18 {
         "fault_enumeration"
     }
     fn rule(&self) -> String {
-        "A case = secure server with a client limit of 1-3 at construction, raised or lowered at run time in some cases; 1-4 honest clients on distinct addresses spawned at any time, token timeouts 1-15 s or disabled, 1-3 server addresses of which a prefix is silent; ticks of 10 ms - 1 s around the 250 ms send rate; per-datagram loss / delay by 1-3 ticks / duplication in both directions during and after the handshake, whole-silence periods per client, the server application streaming a payload to every connected client each tick in some cases, forged and replayed datagrams presented to both sides during silences. A model keeps, per side, the time of the last authentic and fresh packet accepted (genuine datagram delivered for the first time to the endpoint holding that session). Oracles at every update: a peer whose last accepted packet is older than its timeout is reported disconnected by that update (server: ClientDisconnected; client: ConnectionTimedOut), one whose accepted packets are not further apart is not; half-open sessions are gone after their token's expiry second; a denial only happens when the server was full or the id/address was taken during that attempt. After faults stop: every client still connecting whose attempt never met a full server or a taken id/address, with an unexpired token and timeouts enabled when addresses are silent, is connected on both sides within sum(timeouts of the remaining silent addresses) + 8*max(250 ms, tick) + 1 s. Non-trivial: a handshake datagram of at least two of the four kinds was lost, or a silent first address, a raised limit, or a forged packet during a silence occurred, and the heal obligation was evaluated. Distinct = hash of the decoded operation trace.".into()
+        "A case = secure server with a client limit of 1-3 at construction, raised or lowered at run time in some cases; 1-4 honest clients on distinct addresses spawned at any time, token timeouts 1-15 s or disabled, 1-3 server addresses of which a prefix is silent (the first of them, in some cases, a second server that answers the request with a challenge and is never heard of again); ticks of 10 ms - 1 s around the 250 ms send rate; per-datagram loss / delay by 1-3 ticks / duplication in both directions during and after the handshake, whole-silence periods per client, the server application streaming a payload to every connected client each tick in some cases, forged and replayed datagrams presented to both sides during silences. A model keeps, per side, the time of the last authentic and fresh packet accepted (genuine datagram delivered for the first time to the endpoint holding that session). Oracles at every update: a peer whose last accepted packet is older than its timeout is reported disconnected by that update (server: ClientDisconnected; client: ConnectionTimedOut), one whose accepted packets are not further apart is not; half-open sessions are gone after their token's expiry second; a denial only happens when the server was full or the id/address was taken during that attempt. After faults stop: every client still connecting whose attempt never met a full server or a taken id/address, with an unexpired token and timeouts enabled when addresses are silent, is connected on both sides within sum(timeouts of the remaining silent addresses) + 8*max(250 ms, tick) + 1 s. Non-trivial: a handshake datagram of at least two of the four kinds was lost, or a silent first address, a raised limit, or a forged packet during a silence occurred, and the heal obligation was evaluated. Distinct = hash of the decoded operation trace.".into()
     }
     fn assumptions(&self) -> Vec<String> {
         vec![
@@ -368,12 +381,13 @@ impl Property for C18 {
         PbtCfg { cases: tier.pick(200_000, 8_000_000), max_len: tier.pick(500, 1600), shrink_ms: 120_000 }
     }
     fn required_labels(&self) -> Vec<&'static str> {
-        vec!["lost_request", "lost_challenge", "lost_response", "lost_keepalive", "silent_first_address", "limit_raised", "limit_lowered", "forged_in_silence", "server_timeout", "client_timeout", "heal_obligation", "streaming", "timeouts_disabled"]
+        vec!["lost_request", "lost_challenge", "lost_response", "lost_keepalive", "silent_first_address", "limit_raised", "limit_lowered", "forged_in_silence", "server_timeout", "client_timeout", "heal_obligation", "streaming", "timeouts_disabled", "challenge_then_silent_address"]
     }
     fn run_choices(&self, ctx: &mut Ctx) -> Outcome {
         let mut nw = NetWorld::new(ctx.src.u16() as u64);
         let limit = 1 + ctx.src.below(3);
         nw.servers.push(mk_server(0, 1, PROTO, limit, nw.now, true));
+        nw.servers.push(mk_server(1, 1, PROTO, 8, nw.now, true));
         let streaming = ctx.src.chance(110);
         if streaming {
             ctx.label("streaming");
@@ -393,7 +407,11 @@ impl Property for C18 {
             };
             let mut live_at = vec![false; n_silent];
             live_at.push(true);
-            let addrs: Vec<SocketAddr> = live_at.iter().enumerate().map(|(k, l)| if *l { server_addr(0) } else { silent_addr(k) }).collect();
+            let half_first = n_silent > 0 && ctx.src.chance(110);
+            let addrs: Vec<SocketAddr> = live_at.iter().enumerate().map(|(k, l)| if *l { server_addr(0) } else if k == 0 && half_first { server_addr(1) } else { silent_addr(k) }).collect();
+            if half_first {
+                ctx.label("challenge_then_silent_address");
+            }
             let expire = ctx.src.pick(&[600u64, 600, 8, 20]);
             let t = w.nw.mint(&TokenSpec { client_id: 700 + i as u64, user: i as u64, expire_seconds: expire, timeout, addrs, key: key(1), protocol: PROTO });
             let expire_ts = w.nw.now.as_secs() + expire;
@@ -404,7 +422,7 @@ impl Property for C18 {
             if timeout < 0 {
                 ctx.label("timeouts_disabled");
             }
-            w.cl.push(Cl { live_at: live_at.clone(), timeout, expire_ts, saw_full: false, conflict: false, srv_last: None, cli_last: None, cli_now: w.nw.now, ever_held: false, silence: 0, up: VecDeque::new(), down: VecDeque::new(), accepted_up: vec![], accepted_down: vec![] });
+            w.cl.push(Cl { live_at: live_at.clone(), half_first, half_answered: false, timeout, expire_ts, saw_full: false, conflict: false, srv_last: None, cli_last: None, cli_now: w.nw.now, ever_held: false, silence: 0, up: VecDeque::new(), down: VecDeque::new(), accepted_up: vec![], accepted_down: vec![] });
             Op::Spawn { client: i, addrs: live_at, timeout }
         };
         let first = spawn(&mut w, ctx);
@@ -531,7 +549,7 @@ impl Property for C18 {
             }
             // remaining silent addresses before the live one, from the address the client currently talks to
             let cur = client.server_addr();
-            let idx = (0..cl.live_at.len()).find(|&k| (if cl.live_at[k] { server_addr(0) } else { silent_addr(k) }) == cur).unwrap_or(0);
+            let idx = (0..cl.live_at.len()).find(|&k| (if cl.live_at[k] { server_addr(0) } else if k == 0 && cl.half_first { server_addr(1) } else { silent_addr(k) }) == cur).unwrap_or(0);
             let silent_left = cl.live_at[idx..].iter().take_while(|l| !**l).count() as u64;
             if silent_left > 0 && cl.timeout <= 0 {
                 continue; // timeouts disabled: a silent address is never given up
